@@ -50,11 +50,11 @@ type docTool struct {
 
 var docTools = []docTool{
 	// docs/mcp.md:54-59 "Config Tools"
-	{Name: "config_parse", Role: "read"},       // D:54
-	{Name: "config_validate", Role: "read"},    // D:55
-	{Name: "config_compile", Role: "read"},     // D:56
-	{Name: "config_fmt_preview", Role: "read"}, // D:57
-	{Name: "config_diff", Role: "read"},        // D:58
+	{Name: "config_parse", Role: "read"},                                                  // D:54
+	{Name: "config_validate", Role: "read"},                                               // D:55
+	{Name: "config_compile", Role: "read"},                                                // D:56
+	{Name: "config_fmt_preview", Role: "read"},                                            // D:57
+	{Name: "config_diff", Role: "read"},                                                   // D:58
 	{Name: "config_apply", Role: "admin", MutFlag: true, Mutating: true, CfgWriter: true}, // D:59, S:101, S:756, S:761
 	// docs/mcp.md:75-83 "Queue/Admin Read Tools"
 	{Name: "admin_health", Role: "read"},          // D:75
@@ -80,11 +80,11 @@ var docTools = []docTool{
 	{Name: "management_endpoint_upsert", Role: "admin", MutFlag: true, Mutating: true, CfgWriter: true}, // D:103, S:256, S:756
 	{Name: "management_endpoint_delete", Role: "admin", MutFlag: true, Mutating: true, CfgWriter: true}, // D:104, S:293, S:756
 	// docs/mcp.md:110-114 "Runtime Control Tools"
-	{Name: "instance_status", Role: "operate", RtFlag: true},                  // D:110, S:693, D:28
-	{Name: "instance_logs_tail", Role: "operate", RtFlag: true},               // D:111, S:708, D:28
-	{Name: "instance_start", Role: "admin", RtFlag: true, Mutating: true},     // D:112, S:682, S:756, S:762
-	{Name: "instance_stop", Role: "admin", RtFlag: true, Mutating: true},      // D:113, S:720, S:756, S:762
-	{Name: "instance_reload", Role: "admin", RtFlag: true, Mutating: true},    // D:114, S:735, S:756, S:762
+	{Name: "instance_status", Role: "operate", RtFlag: true},               // D:110, S:693, D:28
+	{Name: "instance_logs_tail", Role: "operate", RtFlag: true},            // D:111, S:708, D:28
+	{Name: "instance_start", Role: "admin", RtFlag: true, Mutating: true},  // D:112, S:682, S:756, S:762
+	{Name: "instance_stop", Role: "admin", RtFlag: true, Mutating: true},   // D:113, S:720, S:756, S:762
+	{Name: "instance_reload", Role: "admin", RtFlag: true, Mutating: true}, // D:114, S:735, S:756, S:762
 }
 
 // Names that are documented nowhere: near misses of real names and invented ones.
